@@ -8,6 +8,7 @@
 -/
 import Nice.Proofs.PTcpRing
 import Nice.Proofs.PTcpRun
+import Nice.Props.C10Kernels
 namespace Nice.Props.C08
 open Nice.PTcp Nice.Gen Nice.Proofs.PTcp
 
